@@ -434,6 +434,59 @@ pub mod proofs {
         core::mem::forget(ch);
     }
 
+    /// Same scenario from a concrete pre-state: Channel::new() followed by `queued`
+    /// sends (tags 1..=queued).  With the channel on the stack CBMC folds most of
+    /// the encoding, so these fit the quick tier; the nested operation and its
+    /// position (and one spurious CAS failure) stay symbolic.
+    fn nest_concrete(queued: usize, outer_is_send: bool) {
+        let ch: Channel<u8> = Channel::new();
+        let mut i = 0;
+        while i < 5 {
+            if i < queued {
+                ch.send(i as u8 + 1);
+            }
+            i += 1;
+        }
+        unsafe {
+            let (_, f) = chan::words(&ch);
+            F0 = f;
+            CH = &ch;
+            vshim::HOOKS.interrupt = chan_interrupt;
+            vshim::HOOKS.stuck = stuck;
+        }
+        vshim::set_mode_nest(1, 1, 1);
+        let before = vshim::ops_at_depth(0);
+        if outer_is_send {
+            do_send(&ch);
+        } else {
+            do_recv(&ch);
+        }
+        kani::cover!(vshim::interrupts_taken() == 1, "a nested operation ran");
+        kani::cover!(vshim::cas_fails() == 1, "a spurious CAS failure");
+        nest_finish(&ch, 0, before);
+        core::mem::forget(ch);
+    }
+    #[kani::proof]
+    #[kani::unwind(7)]
+    pub fn c08_q_nest_send_two_queued() {
+        nest_concrete(2, true);
+    }
+    #[kani::proof]
+    #[kani::unwind(7)]
+    pub fn c08_q_nest_recv_two_queued() {
+        nest_concrete(2, false);
+    }
+    #[kani::proof]
+    #[kani::unwind(7)]
+    pub fn c08_q_nest_send_four_queued() {
+        nest_concrete(4, true);
+    }
+    #[kani::proof]
+    #[kani::unwind(7)]
+    pub fn c08_q_nest_recv_full() {
+        nest_concrete(5, false);
+    }
+
     /// Channel::new() is an empty, well-formed channel.
     #[kani::proof]
     #[kani::unwind(7)]
